@@ -85,15 +85,18 @@ func (q *queryExecution) Execute(queryPlan *QueryPlan) ([]executionResult, gqler
 		wg.Done()
 	}()
 
-	if err := q.group.Wait(); err != nil {
+	err := q.group.Wait()
+	// every step goroutine has returned: nothing can send anymore, so the collector
+	// can be stopped and joined on the error path too
+	close(q.results)
+	wg.Wait()
+	if err != nil {
 		return nil, gqlerror.List{
 			&gqlerror.Error{
 				Message: err.Error(),
 			},
 		}
 	}
-	close(q.results)
-	wg.Wait()
 	return results, nil
 }
 
